@@ -158,6 +158,10 @@ example : (0 : Rat) < 5/2 ∧ durLen (5/2 : Rat) + durLen (2 : Rat) + durLen (3 
 example : impulse (some (7/2 : Rat)) "one" "zero" 9 = ["one", "zero", "zero", "zero"] := by decide +kernel
 example : attack (2 : Rat) 2 (.strm [1/2, 7, 8]) 9 = .ok [0, 1/2, 1, 3/4, 7, 8] := by decide +kernel
 
+/-- **C19.noise.1** `white_noise(dur)` / `gauss_noise(dur)` use `rint(dur)`: the same
+`⌊dur + 1/2⌋` samples as the other generators, for every duration (negative: none). -/
+theorem noise_duration (dur : K) : (rint dur).toNat = durLen dur := rint_toNat dur
+
 /-! ## oscillators on top of modulo_counter -/
 
 /-- **C19.table.1** a `TableLookup` oscillator never indexes outside its table and its sample
